@@ -319,8 +319,10 @@ pub enum UOp {
     CountWindow { n: usize, s: usize, exact: bool, content: bool },
     MapMemo { m: i64 },
     Replay { rounds: usize, body: Vec<UOp>, stop_m: i64, stop_r: i64 },
-    /// split(2), filter one branch (v % m == 0 dropped), zip the two branches: min(|a|,|b|) pairs.
-    SplitZip { m: i64, filter_left: bool },
+    /// split(2), filter the left branch (v % m == 0 dropped) and the right one (v % m2 == 1
+    /// dropped), zip the two branches: min(|a|,|b|) pairs. Inside a loop whose body changes v
+    /// per round, the longer side changes from round to round.
+    SplitZip { m: i64, m2: i64 },
     /// Change the batch mode of the current block onwards.
     Batch(BatchSpec),
 }
